@@ -24,9 +24,11 @@ from .c13 import ds_hook
 
 PROP = 'C12'
 SRC, FRQ = 'TxED-1', 'f-1'
-PRE = ('plain', 'computed', 'misfit', 'gradient', 'partial', 'results_only', 'gradient_results_only', 'computed_old_weights')
+PRE = ('plain', 'computed', 'misfit', 'gradient', 'partial', 'results_only', 'gradient_results_only', 'computed_old_weights', 'misfit_loaded', 'gradient_loaded')
 # gradient_results_only: a cached gradient whose back-propagated fields are gone (after clean('keepresults'), copy / to_dict / to_file(what='results'))
 # computed_old_weights:  data weights left in the survey by an earlier misfit evaluation (they are only written when absent)
+# misfit_loaded / gradient_loaded: the states misfit / gradient as they come back from to_file / from_file: the cached misfit is a plain NumPy scalar
+#                        or 0-d array (its .data is a view of its memory, not the number)
 
 
 def E_tag(mv):
@@ -98,6 +100,8 @@ def mk_sim(pre, mv=0, case='isotropic'):
         pre_ = 'gradient'
     elif pre == 'computed_old_weights':
         pre_ = 'computed'
+    elif pre in ('misfit_loaded', 'gradient_loaded'):
+        pre_ = pre[:-7]
     else:
         pre_ = pre
     if pre_ in ('computed', 'misfit', 'gradient', 'partial') and pre not in ('results_only', 'gradient_results_only'):
@@ -117,6 +121,9 @@ def mk_sim(pre, mv=0, case='isotropic'):
         mf.tags = {E_tag(mv), ('OBS',)}
         st['_misfit'] = cx.DArr(cx.Store('misfit-scalar'))
         st['_misfit'].store.deps = {E_tag(mv), ('OBS',)}
+        if orig_pre.endswith('_loaded'):
+            st['_misfit'] = cx.NDArr(st['_misfit'].store)
+            st['_misfit'].plain = True
     if orig_pre == 'computed_old_weights':
         w = cx.DArr(cx.Store('data.weights', None))
         w.store.deps = {('WEIGHTS-OF-AN-EARLIER-EVALUATION',)}
@@ -466,6 +473,13 @@ def task_op(op):
             return so['tol'] == r.state['sim'].fields['tol_forward']
         clause(col, 'stored_solver_options_carry_the_forward_tolerance_whatever_the_history', res, stored_tol)
     if op == 'misfit':
+        def number(r):
+            # what misfit hands back is the number (an array / scalar that stems from the coherent residual) -- also from a simulation that came
+            # back from a file, whose cache is a plain NumPy value: never a view of its memory or another wrapper
+            if r.outcome != 'return':
+                return None
+            return {E_tag(r.state['sim'].fields['model'].fields['mv']), ('OBS',)} <= set(cx.deps_of(r.value))
+        clause(col, 'reported_misfit_is_the_number_computed_from_the_coherent_residual__also_when_the_cache_came_back_from_a_file', res, number)
         clause(col, 'misfit_is_cached_and_computed_state_reached', res,
                lambda r: (r.state['sim'].fields['_misfit'] is not None and r.state['sim'].fields['_computed'] is True) if r.outcome == 'return' else None)
     if op == 'gradient':
@@ -489,7 +503,7 @@ def task_concrete():
     tier = os.environ.get('VERIF_TIER', 'quick')
     r = ob.guarded(c12_concrete.check, tier, seed)
     col.concrete('operation_sequences_vs_fresh_simulation', r['reproduced'] is False, r,
-                 bounded='operation sequences (length <= 5 quick / <= 8 thorough, seeded) over compute/misfit/gradient/jtvec/get_efield/clean/copy/to_dict/model update on an 8x8x8 problem with tol != tol_gradient',
+                 bounded='operation sequences (length <= 5 quick / <= 8 thorough, seeded) over compute/misfit/gradient/jtvec/get_efield/clean/copy/to_dict/to_file+from_file (h5, npz, json)/model update on an 8x8x8 problem with tol != tol_gradient',
                  cases=r.get('cases', 0))
     return col.pack()
 
